@@ -47,6 +47,9 @@ func checkC08(c *Ctx, r *Report) {
 	aplExtentShared(c, r, "C08.R1.apl-extent", "for every prefix whose masked address ends in zero octets Len() is larger than what Pack writes, although the record holds only integers and addresses")
 	emptyNameAgree(c, r, "C08.R1.empty-name")
 	roomTestsNeeded(c, r, "C08.R3.room-tests", "PackRR into a buffer of exactly Len(rr) octets (ToRFC3597 does that) fails with 'buffer size too small' for a valid record whose last field is empty (CAA 0 issue \"\", URI with an empty target)")
+	base64Agreement(c, r, "C08.R1.base64-encoding")
+	lenSearchOffset(c, r, "C08.R2.len-search-offset")
+	borrow(c, r, c04R2, "C04.R2.gate", "C08.R2.pack-gate", 2, "PackBuffer decides whether to compress with the same predicate Len uses (Compress && isCompressible())", nil, "Len() counts compression pointers Pack never writes: it is smaller than the packed message")
 }
 
 func c08Header(c *Ctx, r *Report) {
